@@ -143,6 +143,18 @@ def sql_cases(rng, n):
             p = ("join", None, True, False, l, r) if rng.random() < 0.5 else ("join", None, True, False, r, l)
             if rng.random() < 0.4:
                 p = ("un", ("slice", rng.choice([0, 1]), None), mp.DEFAULT, ("un", ("sort", sp.total_sort_terms(rng, set(lcols) | set(rcols))), mp.DEFAULT, p))
+        elif k % 3 == 1 and rng.random() < 0.5:
+            # a join of operands that share NO column, with exact positive bounds and a predicate across them that keeps
+            # all, some or none of the pairs; sometimes narrowed to an existence check
+            a, b = K(1), K(2)
+            l = ("leaf", 1, sp.SQL, [a], [{a: v} for v in rng.sample(range(1, 6), rng.choice([1, 2, 3]))], None)
+            r = ("leaf", 2, sp.SQL, [b], [{b: v} for v in rng.sample(range(1, 6), rng.choice([1, 2]))], None)
+            l, r = l[:5], r[:5]
+            pred = rng.choice([("cmp", "lt", ("ref", a), ("ref", b)), ("cmp", "gt", ("ref", a), ("add", ("ref", b), ("lit", 10))),
+                               ("cmp", "ge", ("add", ("ref", a), ("ref", b)), ("lit", 0)), None])
+            p = ("join", pred, True, False, l, r) if rng.random() < 0.5 else ("join", pred, True, False, r, l)
+            if rng.random() < 0.3:
+                p = ("un", ("slice", 0, 1), mp.DEFAULT, ("un", ("proj", []), mp.DEFAULT, p))
         else:
             p, _cols, _o = sp.gen_sqlprog(rng, rng.choice([1, 2, 3, 4]))
         w, rel, res = mp.run_build(p)
